@@ -2,20 +2,20 @@ SPECIFICATION Spec
 CONSTANTS
   Types <- TypesExec
   Roots <- RootsExec
-  MaxSel = 4
+  MaxSel = 3
   MaxDepth = 3
-  MaxFrags = 2
+  MaxFrags = 0
   MaxOps = 1
   OpTypes = {"query"}
-  FieldAlpha <- AlphaFrag
+  FieldAlpha <- AlphaTypeRes
   Aliases = {""}
-  Conds = {"T", "P", "A", "Query"}
+  Conds = {"", "A", "B"}
   DirOpts <- NoDirs
   ArgOpts <- ArgOptsNone
   VarTypes <- VarTypesStd
   VarVals <- VarValsStd
-  MaxOverlay = 0
-  TRSets <- NoTR
+  MaxOverlay = 1
+  TRSets <- AllTR
 INVARIANT R1_Exec
 INVARIANT Emit
 CHECK_DEADLOCK FALSE
